@@ -79,9 +79,13 @@ type rawCase struct {
 	Fields int    `json:"fields"` // number of fields
 	Depth  int    `json:"depth"`  // deepest nesting level of any value (field value = 1)
 	Expect string `json:"expect"` // same | depth_error | either
+	Proto  string `json:"proto,omitempty"` // "" = binary protocol objects, "compact" = compact protocol objects on both sides
 }
 
 func judgeRaw(c rawCase) (err error) {
+	if c.Proto == "compact" {
+		return judgeRawCompact(c)
+	}
 	in, herr := hex.DecodeString(c.Hex)
 	if herr != nil || len(in) == 0 {
 		return fmt.Errorf("harness: bad hex")
@@ -403,6 +407,10 @@ func depthBucket(d int) string {
 func TestRuntime(t *testing.T) {
 	rapid.Check(t, func(rt *rapid.T) {
 		c, classes := genRaw(rt)
+		if rapid.IntRange(0, 2).Draw(rt, "compact") == 0 {
+			c.Proto = "compact"
+			classes = append(classes, "A:compact_protocol")
+		}
 		vt.Eval()
 		nontrivial := false
 		for _, k := range classes {
